@@ -921,6 +921,8 @@ func (g *jsGen) expr(depth int, min int) *JSNode {
 				n = &JSNode{K: "yield", Kids: []*JSNode{g.expr(depth+1, pAssign)}}
 				if r.Intn(3) == 0 {
 					n.Op = "*"
+				} else if r.Intn(3) == 0 {
+					n.Kids[0] = nil // yield without operand: in front of ) ] } , ; : or the end of a template substitution
 				}
 			}
 		case 25:
@@ -1155,7 +1157,7 @@ func (g *jsGen) stmt(depth int, top bool) *JSNode {
 		g.inSwitch--
 		return n
 	case c == 20:
-		label := Pick(r, []string{"L1", "outer", "lbl"})
+		label := Pick(r, []string{"L1", "outer", "lbl", "async", "of", "as"})
 		for _, l := range g.labels {
 			if l == label {
 				return &JSNode{K: "debugger"} // no empty statement directly inside a statement list: the parser folds ";;" (pinned by the unit tests for "{};;")
